@@ -194,7 +194,7 @@ POnPrune(a, anchor) ==
              gone == {<<a[p].root, a[p].slot>> : p \in 1..k}
              relink(n) == LET tp == IF n.tpar # NONE /\ n.tpar < newOff THEN NONE ELSE n.tpar
                               fp == IF n.fpar # NONE /\ n.fpar < newOff
-                                    THEN (IF n.parent = anchor[1] /\ n.root # anchor[1] THEN newOff ELSE NONE)
+                                    THEN (IF n.parent = anchor[1] /\ n.root # anchor[1] /\ n.slot > anchor[2] THEN newOff ELSE NONE)
                                     ELSE n.fpar
                           IN [n EXCEPT !.tpar = tp, !.fpar = fp]
              roots == {n.root : n \in {kept[p] : p \in 1..Len(kept)}}
